@@ -541,3 +541,5 @@ func pqParallel(n, w int, f func(i int)) {
 	close(ch)
 	wg.Wait()
 }
+
+func pqIsStale(f float64) bool { return value.IsStaleNaN(f) }
